@@ -262,7 +262,28 @@ func (ma *ModuleAnalyzer) collectModuleImports(ast *parser.Node, filePath string
 		case parser.NodeImport:
 			// Handle "import module" statements
 
-			if len(node.Children) > 0 {
+			// node.Names lists every imported module; aliased ones ("import a as b")
+			// additionally have an Alias child carrying the alias.
+			if len(node.Names) > 0 {
+				for _, name := range node.Names {
+					imp := &ImportInfo{
+						Statement:      fmt.Sprintf("import %s", name),
+						ImportedNames:  []string{name},
+						IsRelative:     false,
+						Line:           node.Location.StartLine,
+						IsTypeChecking: isTypeChecking,
+					}
+					for _, child := range node.Children {
+						if child.Type == parser.NodeAlias && child.Name == name {
+							if alias, ok := child.Value.(string); ok {
+								imp.Alias = alias
+							}
+							break
+						}
+					}
+					imports = append(imports, imp)
+				}
+			} else {
 				for _, child := range node.Children {
 					if child.Type == parser.NodeAlias {
 						imp := &ImportInfo{
@@ -279,17 +300,6 @@ func (ma *ModuleAnalyzer) collectModuleImports(ast *parser.Node, filePath string
 						}
 						imports = append(imports, imp)
 					}
-				}
-			} else if len(node.Names) > 0 {
-				for _, name := range node.Names {
-					imp := &ImportInfo{
-						Statement:      fmt.Sprintf("import %s", name),
-						ImportedNames:  []string{name},
-						IsRelative:     false,
-						Line:           node.Location.StartLine,
-						IsTypeChecking: isTypeChecking,
-					}
-					imports = append(imports, imp)
 				}
 			}
 
